@@ -129,9 +129,99 @@ var labelPools = [][]string{
 	{"b1", "b0", "c", "b10", "b01"},
 }
 
-// e2eDataset: IRIs that net/url accepts (D3 is C01's finding), arbitrary literals
+// IRIs of namespaces that the rdfa-context preset and the iris.usePrefix lists of the cases bind
+var vocabIRIs = []string{
+	"http://schema.org/name", "http://schema.org/Review", "http://schema.org/reviewRating", "https://schema.org/name",
+	"http://purl.org/dc/terms/title", "http://xmlns.com/foaf/0.1/name", "http://www.w3.org/2000/01/rdf-schema#label",
+	"http://example.org/ns#p", "http://example.org/ns#q", "http://example.org/x", "http://example.org/ns/deep#r",
+	"https://example.org/s", "http://a/b",
+}
+
+const rdfType = "http://www.w3.org/1999/02/22-rdf-syntax-ns#type"
+
+// twinDataset: two or three distinct blank nodes that are never objects and whose descriptions are identical
+// (two reviews with the same rating): same predicates, same IRI/literal objects, optionally one nested
+// once-referenced blank node each, again with identical descriptions.
+func twinDataset(r *vh.Rng, graphs bool) []vh.GQuad {
+	iri := func() vh.GTerm { return vh.GTerm{Kind: vh.KIRI, IRI: vh.Pick(r, vocabIRIs)} }
+	lit := func() vh.GTerm {
+		switch r.Intn(3) {
+		case 0:
+			return vh.GTerm{Kind: vh.KLit, Lex: vh.Pick(r, []string{"5", "4", "same"}), DT: vh.XSD + "integer"}
+		case 1:
+			return vh.GTerm{Kind: vh.KLit, Lex: vh.Pick(r, []string{"good", "x", ""}), DT: vh.RDFLangString, Lang: "en"}
+		}
+		return vh.GTerm{Kind: vh.KLit, Lex: vh.Pick(r, []string{"Widget", "a b", "é"}), DT: vh.XSDString}
+	}
+	type po struct{ p, o vh.GTerm }
+	var desc, nested []po
+	if r.Chance(50) {
+		desc = append(desc, po{vh.GTerm{Kind: vh.KIRI, IRI: rdfType}, iri()})
+	}
+	for i, n := 0, 1+r.Intn(2); i < n; i++ {
+		if r.Bool() {
+			desc = append(desc, po{iri(), lit()})
+		} else {
+			desc = append(desc, po{iri(), iri()})
+		}
+	}
+	var nestP vh.GTerm
+	if r.Chance(50) {
+		nestP = iri()
+		for i, n := 0, 1+r.Intn(2); i < n; i++ {
+			nested = append(nested, po{iri(), lit()})
+		}
+	}
+	var g *vh.GTerm
+	if graphs && r.Chance(30) {
+		t := iri()
+		g = &t
+	}
+	var qs []vh.GQuad
+	for t, k := 0, 2+r.Intn(2); t < k; t++ {
+		s := vh.GTerm{Kind: vh.KBNode, BNode: 2 * t}
+		for _, d := range desc {
+			qs = append(qs, vh.GQuad{S: s, P: d.p, O: d.o, G: g})
+		}
+		if nested != nil {
+			n := vh.GTerm{Kind: vh.KBNode, BNode: 2*t + 1}
+			qs = append(qs, vh.GQuad{S: s, P: nestP, O: n, G: g})
+			for _, d := range nested {
+				qs = append(qs, vh.GQuad{S: n, P: d.p, O: d.o, G: g})
+			}
+		}
+	}
+	if r.Chance(50) { // something else in the dataset
+		qs = append(qs, vh.GQuad{S: iri(), P: iri(), O: lit()})
+	}
+	return qs
+}
+
+// e2eDataset: IRIs that net/url accepts (D3 is C01's finding), arbitrary literals; a share of the datasets uses
+// IRIs of well-known namespaces (so that prefix lists have something to compact), another share has twin nodes
 func e2eDataset(r *vh.Rng, graphs bool, nb int) []vh.GQuad {
-	return r.Dataset(vh.DatasetOpts{MaxQuads: 6, NBNodes: nb, NIRIs: 4, Graphs: graphs})
+	if r.Chance(20) {
+		return twinDataset(r, graphs)
+	}
+	qs := r.Dataset(vh.DatasetOpts{MaxQuads: 6, NBNodes: nb, NIRIs: 4, Graphs: graphs})
+	if r.Chance(35) {
+		m := map[string]string{}
+		sub := func(t *vh.GTerm) {
+			if t != nil && t.Kind == vh.KIRI {
+				if _, ok := m[t.IRI]; !ok {
+					m[t.IRI] = vh.Pick(r, vocabIRIs)
+				}
+				t.IRI = m[t.IRI]
+			}
+		}
+		for i := range qs {
+			sub(&qs[i].S)
+			sub(&qs[i].P)
+			sub(&qs[i].O)
+			sub(qs[i].G)
+		}
+	}
+	return qs
 }
 
 func encodeNTNQ(quads bool, ascii bool, tbl *vh.BNTable, qs []vh.GQuad) ([]byte, error) {
@@ -360,6 +450,18 @@ func splitNS(p string) (string, string) {
 	return p[:i+1], p[i+1:]
 }
 
+func qnameable(local string) bool {
+	if local == "" {
+		return false
+	}
+	for i, c := range local {
+		if !((c >= 'a' && c <= 'z') || (c >= 'A' && c <= 'Z') || c == '_' || (i > 0 && c >= '0' && c <= '9')) {
+			return false
+		}
+	}
+	return true
+}
+
 // genRDFXML: one rdf:Description per statement; predicates are replaced by QName-able ones.
 func genRDFXML(r *vh.Rng, qs []vh.GQuad, label func(int) string) []byte {
 	var sb strings.Builder
@@ -370,7 +472,11 @@ func genRDFXML(r *vh.Rng, qs []vh.GQuad, label func(int) string) []byte {
 	xlabel := func(i int) string { return fmt.Sprintf("n%d", i) } // rdf:nodeID is an NCName
 	_ = label
 	for k, q := range qs {
-		ns, local := splitNS(xmlPredicates[(k+len(q.P.IRI))%len(xmlPredicates)])
+		_ = k
+		ns, local := splitNS(q.P.IRI) // QName-able predicates are kept; others are replaced by one that depends on the predicate only
+		if !qnameable(local) || ns == "" {
+			ns, local = splitNS(xmlPredicates[(len(q.P.IRI)+int(q.P.IRI[len(q.P.IRI)-1]))%len(xmlPredicates)])
+		}
 		if q.S.Kind == vh.KBNode {
 			fmt.Fprintf(&sb, " <rdf:Description rdf:nodeID=\"%s\">\n", xlabel(q.S.BNode))
 		} else {
@@ -495,6 +601,17 @@ func genHTML(r *vh.Rng, qs []vh.GQuad, label func(int) string) []byte {
 }
 
 // hand-written Turtle / TriG with anonymous nodes, collections, nesting, relative IRIs, prefixes
+// two reviews with the same rating: distinct blank nodes with identical descriptions, in every format that has
+// an anonymous-node syntax
+var twinTemplates = map[string][]string{
+	"ttl":    {"@prefix schema: <http://schema.org/> .\n<http://example.com/product> schema:name \"Widget\" .\n[] a schema:Review ; schema:itemReviewed <http://example.com/product> ; schema:reviewRating [ schema:ratingValue 5 ] .\n[] a schema:Review ; schema:itemReviewed <http://example.com/product> ; schema:reviewRating [ schema:ratingValue 5 ] .\n[] a schema:Review ; schema:itemReviewed <http://example.com/product> ; schema:reviewRating [ schema:ratingValue 4 ] .\n"},
+	"trig":   {"@prefix schema: <http://schema.org/> .\n[] a schema:Review ; schema:reviewRating [ schema:ratingValue 5 ] .\n[] a schema:Review ; schema:reviewRating [ schema:ratingValue 5 ] .\n<http://example.com/g> { [] schema:name \"n\" . [] schema:name \"n\" . }\n"},
+	"jsonld": {"{\"@context\":{\"@vocab\":\"http://schema.org/\"},\"@graph\":[{\"@type\":\"Review\",\"reviewRating\":{\"ratingValue\":5}},{\"@type\":\"Review\",\"reviewRating\":{\"ratingValue\":5}}]}\n"},
+	"html": {"<html><body>\n<div itemscope itemtype=\"http://schema.org/Review\"><span itemprop=\"name\">same</span><div itemprop=\"reviewRating\" itemscope><span itemprop=\"ratingValue\">5</span></div></div>\n<div itemscope itemtype=\"http://schema.org/Review\"><span itemprop=\"name\">same</span><div itemprop=\"reviewRating\" itemscope><span itemprop=\"ratingValue\">5</span></div></div>\n</body></html>\n",
+		"<html><body vocab=\"http://schema.org/\">\n<div typeof=\"Review\"><span property=\"name\">same</span></div>\n<div typeof=\"Review\"><span property=\"name\">same</span></div>\n</body></html>\n"},
+	"rdfxml": {"<rdf:RDF xmlns:rdf=\"http://www.w3.org/1999/02/22-rdf-syntax-ns#\" xmlns:s=\"http://schema.org/\">\n<s:Review><s:reviewRating rdf:parseType=\"Resource\"><s:ratingValue>5</s:ratingValue></s:reviewRating></s:Review>\n<s:Review><s:reviewRating rdf:parseType=\"Resource\"><s:ratingValue>5</s:ratingValue></s:reviewRating></s:Review>\n</rdf:RDF>\n"},
+}
+
 var turtleTemplates = []string{
 	"@prefix ex: <http://example.org/ns#> .\nex:a ex:p [ ex:q \"x\" ] , [ ex:q \"y\" ] .\n_:l1 ex:p _:l2 .\n",
 	"@prefix ex: <http://example.org/ns#> .\nex:a ex:list ( 1 2.5 \"three\" ex:four [ ex:q true ] ) .\n[] ex:p [] .\n",
@@ -557,12 +674,20 @@ type sourceDoc struct {
 func (g *gen) sourceDoc(fm string) sourceDoc {
 	r := g.r
 	pool := vh.Pick(r, labelPools)
-	label := func(i int) string { return pool[i%len(pool)] }
+	label := func(i int) string {
+		if i >= len(pool) {
+			return fmt.Sprintf("%s%d", pool[i%len(pool)], i/len(pool))
+		}
+		return pool[i]
+	}
 	tbl := vh.NewBNTable(label)
 	// corpus
 	if docs := g.corpus[fm]; len(docs) > 0 && r.Chance(map[string]int{"nt": 10, "nq": 10, "ttl": 25, "trig": 30, "rdfxml": 50, "jsonld": 50, "html": 50, "rj": 0}[fm]) {
 		d := vh.Pick(r, docs)
 		return sourceDoc{fm, "corpus:" + d.name, d.body}
+	}
+	if tw := twinTemplates[fm]; len(tw) > 0 && r.Chance(6) {
+		return sourceDoc{fm, "template", []byte(vh.Pick(r, tw))}
 	}
 	if la := lookalikeTemplates[fm]; len(la) > 0 && r.Chance(3) {
 		return sourceDoc{fm, "lookalike", []byte(vh.Pick(r, la))}
